@@ -87,8 +87,9 @@ const EXTS: [(&str, &str); 16] = [
     ("txt", "text/plain"), ("html", "text/html"), ("css", "text/css"), ("js", "text/javascript"), ("xml", "text/xml"), ("csv", "text/csv"), ("tsv", "text/tab-separated-values"), ("vcard", "text/vcard"),
     ("jpeg", "image/jpeg"), ("gif", "image/gif"), ("png", "image/png"), ("svg", "image/svg+xml"), ("woff", "font/woff"), ("woff2", "font/woff2"), ("json", "application/json"), ("pdf", "application/pdf"),
 ];
-const STEMS: [&str; 10] = ["a", "b", "index", "app", "a.b", "x-y_z", "main", "data", "A1", "about"];
-const DIRS: [&str; 7] = ["docs", "img", "v1.2", "a", "docs.html", "static", "x.txt"];
+// names over the whole route-segment alphabet, including runs of dots, dashes and underscores inside a name
+const STEMS: [&str; 14] = ["a", "b", "index", "app", "a.b", "x-y_z", "main", "data", "A1", "about", "a..b", "report...final", "x--y", "z__9"];
+const DIRS: [&str; 9] = ["docs", "img", "v1.2", "a", "docs.html", "static", "x.txt", "v1..2", "0"];
 
 fn mime_of(name: &str) -> Option<&'static str> {
     let ext = name.rsplit_once('.')?.1;
